@@ -7,6 +7,6 @@ CONSTANTS
   NFix = 4
   MaxSteps = 5
   InstDate <- MCInstDate
-INVARIANTS TypeOK AliasAgree SectIsLastSet HolIsLastFix
+INVARIANTS TypeOK AliasAgree SectIsLastSet HolIsLastFix NamesIsLastRename
 PROPERTIES DefaultSect ObjectsIsolated HandlesStable FixLocal KeysStable
 CHECK_DEADLOCK FALSE
